@@ -69,15 +69,17 @@ def c15_isotropic(out, tier, seed):
             u.equal(ctx, "isotropic proposal logp is symmetric in its arguments", l1, l2, replay, inst)
             # (std's Zip polls the draw iterator first, so d+1 draws are consumed; only the first d are used)
             ok = isinstance(smp, RVec) and len(smp.items) == d and len(zs) >= d
-            u.holds(ctx, "sample returns one coordinate per input coordinate", ok, None, inst)
+            def replay_smp(model, std=std, frm=frm):
+                return replay_iso_sample(model, std, frm)
+            u.holds(ctx, "sample returns one coordinate per input coordinate", ok, replay_smp, inst)
             if ok:
                 for i in range(d):
                     u.equal(ctx, "sample draws from + std*z per coordinate (the distribution logp is the density of)",
-                            smp.items[i], frm[i] + std * zs[i], None, inst)
+                            smp.items[i], frm[i] + std * zs[i], replay_smp, inst)
             s = None
             for t in to:
                 s = t * t if s is None else s + t * t
-            u.equal(ctx, "isotropic target unnorm_logp is -|x|^2/(2 std^2)", un, -(s / (2 * std * std)), None, inst)
+            u.equal(ctx, "isotropic target unnorm_logp is -|x|^2/(2 std^2)", un, -(s / (2 * std * std)), replay, inst)
     u.done()
 
 
@@ -99,7 +101,10 @@ def replay_iso(model, std, frm, to):
         bad = []
         for prof, res in nat.items():
             if isinstance(res, dict) and isinstance(res.get("logp_f64"), float):
+                want_un = -sum(x * x for x in t) / (2 * s * s)
                 if not approx_eq(res["logp_f64"], want, 1e-9, 1e-9) or not approx_eq(res["logp_f64"], res["logp_f64_rev"], 1e-9, 1e-9):
+                    bad.append(prof)
+                elif isinstance(res.get("unnorm_f64"), float) and not approx_eq(res["unnorm_f64"], want_un, 1e-9, 1e-9):
                     bad.append(prof)
         tried.append({"case": case, "native": nat, "spec_logp": want})
         if bad:
@@ -113,8 +118,8 @@ def c15_gaussian2d(out, tier, seed):
     u = MUnit(out, "C15", "c15_gaussian2d", eng,
               functions=["<Gaussian2D<T> as Normalized<T,T>>::logp", "<Gaussian2D<T> as Target<T,T>>::unnorm_logp",
                          "DiffableGaussian2D::<T>::new"],
-              bounds=["arbitrary mean, covariance entries with det > 0, arbitrary point"],
-              assumptions=R_ASSUME, out_of_scope=["SPD-ness beyond det > 0", "f32 accuracy"])
+              bounds=["arbitrary mean, arbitrary symmetric positive definite covariance (a > 0, b = c, det > 0), arbitrary point"],
+              assumptions=R_ASSUME, out_of_scope=["non-symmetric 'covariances' (outside the property's domain)", "f32 accuracy"])
     g_logp = eng.find_fn("<Gaussian2D as Normalized>::logp")
     g_un = eng.find_fn("<Gaussian2D as Target>::unnorm_logp")
     d_new = eng.find_fn("DiffableGaussian2D::new")
@@ -125,6 +130,8 @@ def c15_gaussian2d(out, tier, seed):
         x = [ctx.fresh_real("x") for _ in range(2)]
         det = a * d - b * c
         ctx.assume(det.z() > 0)
+        ctx.assume(b.z() == c.z())  # the property quantifies over SPD covariances: symmetric, a > 0, det > 0
+        ctx.assume(a.z() > 0)
         g = Struct("Gaussian2D", eng.src_index["structs"]["Gaussian2D"],
                    [ND(obj_array(list(mu), (2,))), ND(obj_array([a, b, c, d], (2, 2)))])
         lp = eng.call_fn(g_logp, [Ref.to(g), Ref.to(RVec(list(x)))])
@@ -147,15 +154,81 @@ def c15_gaussian2d(out, tier, seed):
         u.equal(ctx, "Gaussian2D unnormalised log-density is -1/2 (x-mu)^T Sigma^-1 (x-mu)", un, -(quad / 2), replay, None, ax)
         u.equal(ctx, "Gaussian2D normalised and unnormalised forms differ by the constant -ln(2 pi) - 1/2 ln|det Sigma|",
                 lp - un, -ln(2 * PI) - ln(det) / 2, replay, None, ax + [det.z() > 0])
+        def replay_new(model):
+            return replay_diffable_new(model, mu, (a, b, c, d))
         inv = dg.get("inv_cov")
         want_inv = [[d / det, -(b / det)], [-(c / det), a / det]]
         for i in range(2):
             for j in range(2):
-                u.equal(ctx, "DiffableGaussian2D::new stores the inverse covariance", inv[i][j], want_inv[i][j], None, None, ax)
-        u.equal(ctx, "DiffableGaussian2D::new stores ln det(Sigma)", dg.get("logdet_cov"), ln(det), None, None, ax)
+                u.equal(ctx, "DiffableGaussian2D::new stores the inverse covariance", inv[i][j], want_inv[i][j], replay_new, None, ax)
+        u.equal(ctx, "DiffableGaussian2D::new stores ln det(Sigma)", dg.get("logdet_cov"), ln(det), replay_new, None, ax)
         u.equal(ctx, "DiffableGaussian2D::new stores the 2-D normalising constant -(2 ln(2 pi) + ln det)/2",
-                dg.get("norm_const"), -(2 * ln(2 * PI) + ln(det)) / 2, None, None, ax)
+                dg.get("norm_const"), -(2 * ln(2 * PI) + ln(det)) / 2, replay_new, None, ax)
     u.done()
+
+
+def replay_iso_sample(model, std, frm):
+    cands = []
+    try:
+        cands.append((fnum(zval(model, std.z())), [fnum(zval(model, v.z())) for v in frm]))
+    except Exception:
+        pass
+    cands += [(2.5, [0.5 + i for i in range(len(frm))]), (0.3, [-1.0 * i for i in range(len(frm))])]
+    tried = []
+    for sd, fr in cands:
+        if not sd > 0:
+            continue
+        case = {"case": "iso_sample", "std": sd, "from": fr, "seed": 9}
+        nat = native(case)
+        bad = []
+        for prof, res in nat.items():
+            if not isinstance(res, dict) or "sample" not in res:
+                if isinstance(res, dict) and res.get("panic"):
+                    bad.append(prof)
+                continue
+            got, want = res["sample"], res["want"]
+            if len(got) != len(fr) or any(not approx_eq(float(g), float(w), 1e-12, 1e-12) for g, w in zip(got, want)) or not res.get("same_seed_same_draw"):
+                bad.append(prof)
+        tried.append({"case": case, "native": nat})
+        if bad:
+            return True, {"case": case, "native": nat, "reproduced_in": bad}
+    return False, {"tried": tried[:2]}
+
+
+def replay_diffable_new(model, mu, cov):
+    cands = []
+    try:
+        cands.append(([fnum(zval(model, v.z())) for v in mu], [fnum(zval(model, v.z())) for v in cov]))
+    except Exception:
+        pass
+    cands += [([0.0, 1.0], [4.0, 2.0, 2.0, 3.0]), ([1.0, -1.0], [0.5, -0.2, -0.2, 2.0])]
+    tried = []
+    for m, c in cands:
+        det = c[0] * c[3] - c[1] * c[2]
+        if det <= 0 or c[1] != c[2] or c[0] <= 0:
+            continue
+        case = {"case": "diffable_new", "mean": m, "cov": c}
+        nat = native(case)
+        want_inv = [c[3] / det, -c[1] / det, -c[2] / det, c[0] / det]
+        want_ld = math.log(det)
+        want_nc = -(2 * math.log(2 * math.pi) + math.log(det)) / 2
+        bad = []
+        for prof, res in nat.items():
+            if not isinstance(res, dict) or "inv_cov" not in res:
+                if isinstance(res, dict) and res.get("panic"):
+                    bad.append(prof)
+                continue
+            try:
+                ok = all(approx_eq(float(g), w, 1e-9, 1e-12) for g, w in zip(res["inv_cov"], want_inv)) and approx_eq(
+                    float(res["logdet_cov"]), want_ld, 1e-9, 1e-12) and approx_eq(float(res["norm_const"]), want_nc, 1e-9, 1e-12)
+            except (TypeError, ValueError):
+                ok = False
+            if not ok:
+                bad.append(prof)
+        tried.append({"case": case, "native": nat, "spec": {"inv_cov": want_inv, "logdet_cov": want_ld, "norm_const": want_nc}})
+        if bad:
+            return True, {"case": case, "native": nat, "spec": tried[-1]["spec"], "reproduced_in": bad}
+    return False, {"tried": tried[:2]}
 
 
 def replay_g2d(model, mu, cov, x):
